@@ -6,9 +6,12 @@
     `(-)?([0-9]+)` with the full-match check accepts exactly an optional minus followed by decimal
     digits; tie `GenTies.primeElemPattern_eq`), so the round trip is a theorem (`prime_roundtrip`),
     as are the signed reading, the exact accepted language and totality (for C17).
-  * binary-field elements / univariate / bivariate polynomials: the parsers `Bin.parse`,
-    `UPoly.parse`, `BPoly.parse` run the regular-expression engine `Algobra.Regex` (`partial def`s,
-    opaque to the kernel) — nothing can be proved about the values they return.  Proved for these:
+  * binary-field elements / univariate / bivariate polynomials: for simple variable names the
+    parsers `Bin.parse`, `UPoly.parse`, `BPoly.parse` take their matches from the total tokenisers
+    of `Model/Parse.lean`; round trips proved from them are in `Props/C15Full.lean` (binary and
+    extension elements, univariate polynomials over prime fields).  For other names they run the
+    regular-expression engine `Algobra.Regex` (`parseRx`, `stringToMapRx`: `partial def`s, opaque
+    to the kernel).  Proved in this file, for both paths:
     the error kinds they can return whatever the engine does (`*_parse_error_kinds`, for C17);
     injectivity of the printers `Bin.toStr` (every name `SetVarName` accepts), `UPoly.toStr` over
     prime fields and the extension-field element printer (`bin_toStr_injective`,
